@@ -21,6 +21,22 @@ PROPS["C16"] = {
                     "f64 powi/multiplication by 1e9 exact for powers of two (checked for all 256 i8 values)"],
 }
 
+PROPS["C04"] = {
+    "streams": [{"name": "wire"}],
+    "rule": "DEC stream: structured mostly-valid frames of all ten message types — every flag-field value (2^16) on Sync/Announce, "
+            "every value of every single header/body octet (exhaustive per position), every messageLength value against several "
+            "buffer lengths, 16-bit field sweeps, every TLV layout class (types, even/odd lengths, truncated, trailing 1..5 octets, "
+            "zero-length first/last, overrun), random valid frames with boundary patterns and padding, plus a malformed stream "
+            "(short buffers, random bytes, bit/byte mutations, truncations). distinct = distinct frames; non-trivial = decoded "
+            "successfully or rejected after the header length check (error class other than too-short-for-header)",
+    "exhaustive": False,
+    "explanation": "theorems over the List UInt8 codec model; tie = layout/enum tables extracted from the Rust source and "
+                   "compared with the Clause 13 tables by decide, plus differential DEC stream (field dump, error class, re-encoded bytes)",
+    "assumptions": ["Spec/Clause13.lean is our transcription of IEEE 1588-2019 Clause 13 / 15.4.1 (trusted)",
+                    "Message::serialize is observed on a zeroed buffer (reserved octets it does not write are 0 in the model)",
+                    "translator/extract_tables.py copies offsets/bits syntactically (regex); a degraded item falls back to the DEC stream"],
+}
+
 
 def projection(pid, stream, profile):
     """returns f(op_line, observation_line) -> comparable value or None (= not compared for this property)"""
